@@ -68,8 +68,20 @@ package mapr
 //@   ensures [last] implies(agg == Last, isnil(err) && s.SValues[key] == value && has(s.SValues, key))
 //@   ensures [len] implies(agg == Len, isnil(err) && s.SValues[key] == value && s.FValues[key] == len(value))
 //@   ensures [only-this-key] fKept(s, key) && sKept(s, key)
+// The wire form of one group's partial aggregate (C05):
+//   groupKey ∥ samples ∥ { key ≔ value ∥ }   (numbers first, then strings).
+// The client cuts the message at ∥ and each piece at its first ≔, so a group key,
+// column name or last() value that itself contains ∥ (or a key containing ≔)
+// cannot survive the trip: values-free-of-wire-delimiters fails for values
+// that come from log lines (a recorded known finding).
 //@ func (*AggregateSet).Serialize
 //@   assigns *ch
+//@   loop 1 invariant [header-first] hasPrefix(sb.content, groupKey + "\u2225" + itoa(s.Samples) + "\u2225")
+//@   loop 2 invariant [header-first] hasPrefix(sb.content, groupKey + "\u2225" + itoa(s.Samples) + "\u2225")
+//@   loop 1 step [number-piece] sb.content == prev(sb.content) + k + "\u2254" + ufs_fmt_v(v) + "\u2225"
+//@   loop 2 step [string-piece] sb.content == prev(sb.content) + k + "\u2254" + v + "\u2225"
+//@   loop 2 step [values-free-of-wire-delimiters] !contains(v, "\u2225") && !contains(k, "\u2225") && !contains(k, "\u2254")
+//@   at-send ch [whole-message] hasPrefix(elem, groupKey + "\u2225" + itoa(s.Samples) + "\u2225")
 //@ func (*GroupSet).Serialize
 //@   assigns *ch
 
